@@ -50,6 +50,13 @@ func concretise(name string, kind string, n int, seed int64) ([]byte, int) {
 		return b
 	}
 	if kind == "data" {
+		if strings.HasPrefix(name, "blank") {
+			ws := " \t\r\n \n\n\n"
+			if n == 1 {
+				return []byte("\n"), 0
+			}
+			return []byte(strings.Repeat(ws, n/len(ws)+1)[:n]), 0
+		}
 		if strings.HasPrefix(name, "text") {
 			var sb strings.Builder
 			for sb.Len() < n {
